@@ -18,7 +18,10 @@ def checks : Checks (TxV.Core.Design × TxV.Core.Sched) where
   cycleOk := cycleOk
   shape12 := fun a u L Dr => shapeC12B a.1 (useOf u) L Dr
   nbr := fun a u => nbrOkB a.1 a.2 (useOf u)
-  shape13 := fun a x y L => shapeC13B a.1 x y L
+  -- two simultaneous bodies: the symmetric shape (Connect, plain simultaneous()), or one of them is a
+  -- transaction nested in the other (the shape of a one-branch condition(): `c13_same_cycles_nested`)
+  shape13 := fun a x y L Dr => shapeC13B a.1 x y L || shapeC12B a.1 ⟨x, [y], false, false⟩ L Dr ||
+    shapeC12B a.1 ⟨y, [x], false, false⟩ L Dr
   linkEn := fun a v rb L => linkEnB a.1 ⟨v.ready, v.en, v.arg, fun _ _ => true⟩ rb L
   derEn := fun v rb Dr => derEnB ⟨v.ready, v.en, v.arg, fun _ _ => true⟩ rb Dr
   dflt := fun v u => defaultReadyB ⟨v.ready, v.en, v.arg, fun _ _ => true⟩ (useOf u)
